@@ -35,15 +35,201 @@ open PointObj Curve
 variable {G : Type} [AddCommGroup G] [DecidableEq G]
 variable {sp : ASpec G} {HS : PJ → List (Int × Int) → G → Prop} {HA : AffPt → G → Prop}
 
+/-! ### the covered set: well-typed calls, minus arithmetic on legacy points only
+
+Every call the harness generates lies in this set and every kind of call in this set is generated
+(`harness/props/C19.py`); what is excluded from generation is excluded here. -/
+
+/-- the reference denotes a point object: a `PointJacobi`, a legacy `Point`, INFINITY or a copy of INFINITY -/
+def IsPoint (ah : AHeap G) (r : Ref) : Prop := aptOf ah r ≠ none
+
+/-- … and not the identity (`from_affine(INFINITY)` builds `PointJacobi(None, None, None, 1)` without raising: a
+meaningless object, outside the model) -/
+def IsFinite (ah : AHeap G) (r : Ref) : Prop := ∃ v, aptOf ah r = some v ∧ v ≠ .inf
+
+/-- a `PointJacobi` with a declared non-zero order: what a `curves.Curve` object can be built around (`Curve.__init__`
+calls `orderlen(generator.order())`) -/
+def IsGen (ah : AHeap G) (g : Ref) : Prop := ∃ x n gen, aptOf ah g = some (.jac x (some n) gen) ∧ n ≠ 0
+
+/-- a `VerifyingKey` as the library builds it: its generator is such an object, its point is a `PointJacobi` -/
+def WFKey (ah : AHeap G) (k : Nat) : Prop :=
+  ∃ g q, ah[k]? = some (.key g q) ∧ IsGen ah g ∧ ∃ x o gen, aptOf ah q = some (.jac x o gen)
+
+def WFSKey (ah : AHeap G) (sk : Nat) : Prop := ∃ d vk, ah[sk]? = some (.skey d vk) ∧ WFKey ah vk
+
+/-- anything that can be pickled: INFINITY or an existing object -/
+def IsObject (ah : AHeap G) : Ref → Prop
+  | .inf => True
+  | .obj i => ∃ a, ah[i]? = some a
+
 /-- the operations (in the abstract heap `ah`) for which the refinement is proved -/
 def Covered (ah : AHeap G) : Op → Prop
-  | .neg r => NotAff ah r
-  | .double r => NotAff ah r
-  | .mul r _ => NotAff ah r
-  | .add r s => NotBothAff ah r s
-  | .mulAdd _ a s _ => MulAddOK ah a s
-  | .keyVerify k _ _ _ => KeyPointOK ah k
-  | _ => True
+  | .x r => IsPoint ah r
+  | .y r => IsPoint ah r
+  | .order r => IsPoint ah r
+  | .scale r => IsPoint ah r
+  | .toAffine r => IsPoint ah r
+  | .fromAffine r _ => IsFinite ah r
+  | .neg r => IsPoint ah r ∧ NotAff ah r
+  | .double r => IsPoint ah r ∧ NotAff ah r
+  | .mul r _ => IsPoint ah r ∧ NotAff ah r
+  | .add r s => IsPoint ah r ∧ IsPoint ah s ∧ NotBothAff ah r s
+  | .mulAdd r a s _ => IsPoint ah r ∧ IsPoint ah s ∧ MulAddOK ah a s
+  | .eq r s => IsPoint ah r ∧ IsPoint ah s
+  | .pickle r => IsObject ah r
+  | .copy r => IsPoint ah r
+  | .mkKey g r => IsGen ah g ∧ IsPoint ah r
+  | .keyPoint k => WFKey ah k
+  | .keyPrecompute k _ => WFKey ah k
+  | .keySer k _ => WFKey ah k
+  | .keyVerify k _ _ _ => WFKey ah k
+  | .keyEq k l => WFKey ah k ∧ WFKey ah l
+  | .mkSKey g _ => IsGen ah g
+  | .skSign sk _ _ => WFSKey ah sk
+  | .skVerifyingKey sk => WFSKey ah sk
+
+/-! a Boolean checker for `Covered` (used by the non-vacuity instances) -/
+
+def isPointB (ah : AHeap G) (r : Ref) : Bool := (aptOf ah r).isSome
+def isFiniteB (ah : AHeap G) (r : Ref) : Bool := match aptOf ah r with | some .inf => false | some _ => true | none => false
+def notAffB (ah : AHeap G) (r : Ref) : Bool := match aptOf ah r with | some (.aff _ _) => false | _ => true
+def isGenB (ah : AHeap G) (g : Ref) : Bool := match aptOf ah g with | some (.jac _ (some n) _) => n != 0 | _ => false
+def isJacB (ah : AHeap G) (r : Ref) : Bool := match aptOf ah r with | some (.jac _ _ _) => true | _ => false
+def wfKeyB (ah : AHeap G) (k : Nat) : Bool := match ah[k]? with | some (.key g q) => isGenB ah g && isJacB ah q | _ => false
+def wfSKeyB (ah : AHeap G) (sk : Nat) : Bool := match ah[sk]? with | some (.skey _ vk) => wfKeyB ah vk | _ => false
+def isObjectB (ah : AHeap G) : Ref → Bool | .inf => true | .obj i => (ah[i]?).isSome
+
+def coveredB (ah : AHeap G) : Op → Bool
+  | .x r | .y r | .order r | .scale r | .toAffine r | .copy r => isPointB ah r
+  | .fromAffine r _ => isFiniteB ah r
+  | .neg r | .double r | .mul r _ => isPointB ah r && notAffB ah r
+  | .add r s => isPointB ah r && isPointB ah s && (notAffB ah r || notAffB ah s)
+  | .mulAdd r a s _ => isPointB ah r && isPointB ah s && (a != 0 || notAffB ah s)
+  | .eq r s => isPointB ah r && isPointB ah s
+  | .pickle r => isObjectB ah r
+  | .mkKey g r => isGenB ah g && isPointB ah r
+  | .keyPoint k | .keyPrecompute k _ | .keySer k _ | .keyVerify k _ _ _ => wfKeyB ah k
+  | .keyEq k l => wfKeyB ah k && wfKeyB ah l
+  | .mkSKey g _ => isGenB ah g
+  | .skSign sk _ _ | .skVerifyingKey sk => wfSKeyB ah sk
+
+theorem isPointB_sound {ah : AHeap G} {r : Ref} (h : isPointB ah r = true) : IsPoint ah r := by
+  unfold isPointB at h; intro hn; rw [hn] at h; cases h
+
+theorem notAffB_sound {ah : AHeap G} {r : Ref} (h : notAffB ah r = true) : NotAff ah r := by
+  intro g o hc; unfold notAffB at h; rw [hc] at h; cases h
+
+theorem isFiniteB_sound {ah : AHeap G} {r : Ref} (h : isFiniteB ah r = true) : IsFinite ah r := by
+  unfold isFiniteB at h
+  cases hv : aptOf ah r with
+  | none => rw [hv] at h; cases h
+  | some v =>
+    refine ⟨v, hv, ?_⟩
+    rintro rfl
+    rw [hv] at h; cases h
+
+theorem isGenB_sound {ah : AHeap G} {g : Ref} (h : isGenB ah g = true) : IsGen ah g := by
+  unfold isGenB at h
+  cases hv : aptOf ah g with
+  | none => rw [hv] at h; cases h
+  | some v =>
+    rw [hv] at h
+    cases v with
+    | inf => cases h
+    | aff _ _ => cases h
+    | jac x o gen =>
+      cases o with
+      | none => cases h
+      | some n => exact ⟨x, n, gen, hv, by simpa using h⟩
+
+theorem wfKeyB_sound {ah : AHeap G} {k : Nat} (h : wfKeyB ah k = true) : WFKey ah k := by
+  unfold wfKeyB at h
+  cases hk : ah[k]? with
+  | none => rw [hk] at h; cases h
+  | some a =>
+    rw [hk] at h
+    cases a with
+    | key g q =>
+      simp only [Bool.and_eq_true] at h
+      refine ⟨g, q, hk, isGenB_sound h.1, ?_⟩
+      have h2 := h.2
+      unfold isJacB at h2
+      cases hq : aptOf ah q with
+      | none => rw [hq] at h2; cases h2
+      | some v =>
+        rw [hq] at h2
+        cases v with
+        | jac x o gen => exact ⟨x, o, gen, rfl⟩
+        | inf => cases h2
+        | aff _ _ => cases h2
+    | pj _ _ _ => cases h
+    | aff _ _ => cases h
+    | infc => cases h
+    | skey _ _ => cases h
+
+theorem wfSKeyB_sound {ah : AHeap G} {sk : Nat} (h : wfSKeyB ah sk = true) : WFSKey ah sk := by
+  unfold wfSKeyB at h
+  cases hk : ah[sk]? with
+  | none => rw [hk] at h; cases h
+  | some a =>
+    rw [hk] at h
+    cases a with
+    | skey d vk => exact ⟨d, vk, hk, wfKeyB_sound h⟩
+    | pj _ _ _ => cases h
+    | aff _ _ => cases h
+    | infc => cases h
+    | key _ _ => cases h
+
+theorem coveredB_sound {ah : AHeap G} {op : Op} (h : coveredB ah op = true) : Covered ah op := by
+  cases op <;> simp only [coveredB, Bool.and_eq_true, Bool.or_eq_true] at h <;> simp only [Covered]
+  case x => exact isPointB_sound h
+  case y => exact isPointB_sound h
+  case order => exact isPointB_sound h
+  case scale => exact isPointB_sound h
+  case toAffine => exact isPointB_sound h
+  case copy => exact isPointB_sound h
+  case fromAffine => exact isFiniteB_sound h
+  case neg => exact ⟨isPointB_sound h.1, notAffB_sound h.2⟩
+  case double => exact ⟨isPointB_sound h.1, notAffB_sound h.2⟩
+  case mul => exact ⟨isPointB_sound h.1, notAffB_sound h.2⟩
+  case add r s =>
+    refine ⟨isPointB_sound h.1.1, isPointB_sound h.1.2, ?_⟩
+    rintro ⟨⟨g, o, h1⟩, ⟨g', o', h2⟩⟩
+    rcases h.2 with h3 | h3
+    · exact notAffB_sound h3 g o h1
+    · exact notAffB_sound h3 g' o' h2
+  case mulAdd r a s b =>
+    refine ⟨isPointB_sound h.1.1, isPointB_sound h.1.2, ?_⟩
+    intro ha
+    rcases h.2 with h3 | h3
+    · simp [ha] at h3
+    · exact notAffB_sound h3
+  case eq => exact ⟨isPointB_sound h.1, isPointB_sound h.2⟩
+  case pickle r =>
+    cases r with
+    | inf => trivial
+    | obj i =>
+      simp only [isObjectB] at h
+      cases hc : ah[i]? with
+      | none => rw [hc] at h; cases h
+      | some a => exact ⟨a, hc⟩
+  case mkKey => exact ⟨isGenB_sound h.1, isPointB_sound h.2⟩
+  case keyPoint => exact wfKeyB_sound h
+  case keyPrecompute => exact wfKeyB_sound h
+  case keySer => exact wfKeyB_sound h
+  case keyVerify => exact wfKeyB_sound h
+  case keyEq => exact ⟨wfKeyB_sound h.1, wfKeyB_sound h.2⟩
+  case mkSKey => exact isGenB_sound h
+  case skSign => exact wfSKeyB_sound h
+  case skVerifyingKey => exact wfSKeyB_sound h
+
+theorem WFKey.pointOK {ah : AHeap G} {k : Nat} (h : WFKey ah k) : KeyPointOK ah k := by
+  obtain ⟨g, q, hk, _, x, o, gen, hq⟩ := h
+  intro g' q' hk' g'' o' hc
+  rw [hk] at hk'
+  cases hk'
+  rw [hq] at hc
+  cases hc
 
 theorem run_of_outcome {α} {m : M α} {am : AM G α} {f : α → Out} {h : Heap} {ah : AHeap G}
     (ho : Outcome HS HA (fun a b => a = b) (m h) (am ah)) :
@@ -72,11 +258,11 @@ theorem step_refines (hyp : RepIndep sp HS HA) {h : Heap} {ah : AHeap G} (hi : I
   | scale r => exact run_of_outcome (scaleObj_sim hyp r h ah hi)
   | toAffine r => exact run_of_outcome (toAffineObj_sim hyp r h ah hi)
   | fromAffine r g => exact run_of_outcome (fromAffineObj_sim hyp r g h ah hi)
-  | neg r => exact run_of_outcome (negObj_sim hyp r h ah hi hc)
-  | double r => exact run_of_outcome (doubleObj_sim hyp r h ah hi hc)
-  | add r s => exact run_of_outcome (addObj_sim hyp r s h ah hi hc)
-  | mul r k => exact run_of_outcome (mulObj_sim hyp r k h ah hi hc)
-  | mulAdd r a s b => exact run_of_outcome (mulAddObj_sim hyp r a s b h ah hi hc)
+  | neg r => exact run_of_outcome (negObj_sim hyp r h ah hi hc.2)
+  | double r => exact run_of_outcome (doubleObj_sim hyp r h ah hi hc.2)
+  | add r s => exact run_of_outcome (addObj_sim hyp r s h ah hi hc.2.2)
+  | mul r k => exact run_of_outcome (mulObj_sim hyp r k h ah hi hc.2)
+  | mulAdd r a s b => exact run_of_outcome (mulAddObj_sim hyp r a s b h ah hi hc.2.2)
   | eq r s => exact run_of_outcome (eqObj_sim hyp r s h ah hi)
   | pickle r => exact run_of_outcome (pickleObj_sim r h ah hi)
   | copy r => exact run_of_outcome (copyPoint_sim r h ah hi)
@@ -87,7 +273,7 @@ theorem step_refines (hyp : RepIndep sp HS HA) {h : Heap} {ah : AHeap G} (hi : I
     | true => exact run_of_outcome' (keyPrecompute_lazy_sim hyp k h ah hi) (fun _ _ => rfl)
     | false => exact run_of_outcome' (keyPrecompute_eager_sim hyp k h ah hi) (fun _ _ => rfl)
   | keySer k e => exact run_of_outcome (keySerObj_sim hyp k e h ah hi)
-  | keyVerify k e r s => exact run_of_outcome (keyVerifyObj_sim hyp k e r s h ah hi hc)
+  | keyVerify k e r s => exact run_of_outcome (keyVerifyObj_sim hyp k e r s h ah hi hc.pointOK)
   | keyEq a b => exact run_of_outcome (keyEqObj_sim hyp a b h ah hi)
   | mkSKey g d => exact run_of_outcome (mkSKeyObj_sim hyp g d h ah hi)
   | skSign sk e k => exact run_of_outcome (skSignObj_sim hyp sk e k h ah hi)
@@ -121,10 +307,8 @@ example : let sp : ASpec Int := ⟨id, id, ⟨11, 1, 6, none⟩⟩
     CoveredAll sp ah ops ∧
     aoutputs sp ah ops = [.optInt (some 5), .ref (.obj 1), .optInt (some 10), .ref (.obj 0), .bool false,
       .ref (.obj 0), .ref (.obj 2)] := by
-  refine ⟨⟨trivial, ?_, trivial, ?_, trivial, trivial, trivial, trivial⟩, by decide⟩ <;>
-    (intro g o hc
-     rw [show aptOf _ (Ref.obj 0) = some (AVal.jac (5 : Int) (some 13) true) from rfl] at hc
-     cases hc)
+  refine ⟨⟨coveredB_sound rfl, coveredB_sound rfl, coveredB_sound rfl, coveredB_sound rfl, coveredB_sound rfl,
+    coveredB_sound rfl, coveredB_sound rfl, trivial⟩, by decide⟩
 
 /-- … hence of freshly built objects: two concrete heaps denoting the same values — one with an arbitrary past, one
 freshly constructed — answer every history identically (outputs include which pool object is returned) -/
@@ -142,6 +326,12 @@ def aden (ah : AHeap G) (r : Ref) : Option G :=
   | some (.jac g _ _) => some g
   | some (.aff g _) => some g
   | none => none
+
+theorem aden_isPoint {ah : AHeap G} {r : Ref} {g : G} (h : aden ah r = some g) : IsPoint ah r := by
+  unfold aden at h
+  intro hn
+  rw [hn] at h
+  cases h
 
 /-- `==` on the abstract machine is equality of values (for operands that occur in a related concrete heap, where a
 `PointJacobi`/`Point` object never denotes 0) -/
@@ -190,7 +380,7 @@ theorem eq_equivalence (hyp : RepIndep sp HS HA) {h : Heap} {ah : AHeap G} (hi :
     ((step h (.eq r s)).2 = (step h (.eq s r)).2) ∧
     ((step h (.eq r s)).2 = .bool true → (step h (.eq s t)).2 = .bool true → (step h (.eq r t)).2 = .bool true) := by
   have e := fun (a b : Ref) (x y : G) (ha : aden ah a = some x) (hb : aden ah b = some y) =>
-    (step_refines hyp hi (.eq a b) trivial).1.trans (aeq_value hyp hi a b ha hb)
+    (step_refines hyp hi (.eq a b) ⟨aden_isPoint ha, aden_isPoint hb⟩).1.trans (aeq_value hyp hi a b ha hb)
   rw [e r s g g' hr hs, e r r g g hr hr, e s r g' g hs hr, e s t g' g'' hs ht, e r t g g'' hr ht]
   refine ⟨by simp, by simp, ?_, ?_⟩
   · congr 1; exact decide_eq_decide.mpr ⟨fun h => h.symm, fun h => h.symm⟩
